@@ -1,4 +1,548 @@
+//! C19: run the real `ClassingConfig::{classing,request}` of /repo/eval on generated and shipped class
+//! configurations, and use every generated request on a real allocator.
+//!
+//! Transcript (one token list per line):
+//!   CFG <label> <nclasses>             start of a configuration
+//!   J <json>                           the JSON text that was handed to facet_json (one line)
+//!   C <id> <kind> <min|-> <max|-> <gfp tokens>      one per class, in order;
+//!        gfp tokens (prefix): on <hex> | off <hex> | all <k> m1..mk | any <k> m1..mk | not m
+//!   PARSE ok|differ                    Debug of the parsed real config == Debug of the harness' mirror
+//!   K <cores> <id>:<count>,.. | K <cores> - | K <cores> P     `classing(cores).classes()` (P = panicked)
+//!   Q <order> <core> <pid> <gfphex> <class> <local|N> <use>   `request(order, core, cores, pid, gfp)`
+//!   Q <order> <core> <pid> <gfphex> P                         ... panicked
+//!        use = ok | err | panic:<message> | -    (get + put of that request on an LLFree built with the
+//!        classing of the last K line; `-` = not used)
+//! Every random choice derives from --seed.  `--replay <file>` re-executes the J/K/Q lines of a transcript
+//! (or replay file) on the current implementation.
+use std::io::Write;
+use std::panic::{AssertUnwindSafe, catch_unwind};
+use std::sync::Mutex;
+
+use facet::Facet;
+use llfree::{Alloc, Init, LLFree, MetaData, Request, TREE_FRAMES};
+use llfree_eval::classes::ClassingConfig as RealConfig;
+use llfree_eval::gfp::GFP;
+use llfree_verif_harness_eval::{Args, Rng, out};
+
+/// Mirror of the (private) configuration types of /repo/eval/src/classes.rs with identical names,
+/// field order and facet attributes, so that (a) the harness can build configurations and serialise
+/// them with facet_json, (b) `{:?}` of both sides can be compared after parsing.
+mod mirror {
+    use super::*;
+
+    #[derive(Clone, Debug, Facet)]
+    pub struct ClassingConfig {
+        pub classes: Vec<ClassConfig>,
+        pub default: u8,
+        pub perfect: (usize, usize),
+        pub good: (usize, usize),
+    }
+
+    #[derive(Clone, Copy, Debug, Facet, PartialEq, Eq)]
+    #[repr(u8)]
+    #[facet(rename_all = "snake_case")]
+    pub enum Count {
+        Zero,
+        One,
+        Cores,
+        CoresHalf,
+        Pids,
+    }
+
+    #[derive(Clone, Debug, Facet)]
+    pub struct ClassConfig {
+        pub id: u8,
+        pub count: Count,
+        pub order: Option<(usize, usize)>,
+        #[facet(default)]
+        pub gfp: GfpMatch,
+    }
+
+    #[derive(Facet, Clone, Debug, PartialEq, Eq)]
+    #[repr(u8)]
+    #[facet(rename_all = "snake_case")]
+    pub enum GfpMatch {
+        On(GFP),
+        Off(GFP),
+        All(Vec<Self>),
+        Any(Vec<Self>),
+        Not(Box<Self>),
+    }
+    impl Default for GfpMatch {
+        fn default() -> Self {
+            Self::All(Vec::new())
+        }
+    }
+}
+use mirror::{ClassConfig, ClassingConfig, Count, GfpMatch};
+
+const KINDS: [Count; 5] = [Count::Zero, Count::One, Count::Cores, Count::CoresHalf, Count::Pids];
+const FLAGS: [GFP; 10] = [
+    GFP::MOVABLE,
+    GFP::PAGE_CACHE,
+    GFP::HIGHMEM,
+    GFP::FS,
+    GFP::NOFAIL,
+    GFP::NORETRY,
+    GFP::RECLAIMABLE,
+    GFP::DMA,
+    GFP::ZERO,
+    GFP::ZEROTAGS,
+];
+
+fn kind_name(k: Count) -> &'static str {
+    match k {
+        Count::Zero => "zero",
+        Count::One => "one",
+        Count::Cores => "cores",
+        Count::CoresHalf => "cores_half",
+        Count::Pids => "pids",
+    }
+}
+
+fn gfp_tokens(m: &GfpMatch, s: &mut String) {
+    match m {
+        GfpMatch::On(f) => s.push_str(&format!(" on {:x}", *f as u32)),
+        GfpMatch::Off(f) => s.push_str(&format!(" off {:x}", *f as u32)),
+        GfpMatch::All(l) => {
+            s.push_str(&format!(" all {}", l.len()));
+            l.iter().for_each(|x| gfp_tokens(x, s));
+        }
+        GfpMatch::Any(l) => {
+            s.push_str(&format!(" any {}", l.len()));
+            l.iter().for_each(|x| gfp_tokens(x, s));
+        }
+        GfpMatch::Not(x) => {
+            s.push_str(" not");
+            gfp_tokens(x, s);
+        }
+    }
+}
+
+// ---------------------------------------------------------------- panic capture
+static LAST_PANIC: Mutex<String> = Mutex::new(String::new());
+
+fn install_hook() {
+    std::panic::set_hook(Box::new(|info| {
+        let msg = if let Some(s) = info.payload().downcast_ref::<&str>() {
+            s.to_string()
+        } else if let Some(s) = info.payload().downcast_ref::<String>() {
+            s.clone()
+        } else {
+            "?".into()
+        };
+        let loc = info
+            .location()
+            .map(|l| format!("{}:{}", l.file().rsplit('/').next().unwrap_or(""), l.line()))
+            .unwrap_or_default();
+        let text: String = format!("{loc}:{msg}")
+            .chars()
+            .map(|c| if c.is_whitespace() { '_' } else { c })
+            .take(120)
+            .collect();
+        *LAST_PANIC.lock().unwrap() = text;
+    }));
+}
+fn last_panic() -> String {
+    LAST_PANIC.lock().unwrap().clone()
+}
+
+// ---------------------------------------------------------------- generators
+fn rand_gfp(rng: &mut Rng, depth: usize) -> GfpMatch {
+    let leaf = depth == 0 || rng.chance(2, 5);
+    if leaf {
+        let f = *rng.pick(&FLAGS);
+        if rng.chance(1, 2) { GfpMatch::On(f) } else { GfpMatch::Off(f) }
+    } else {
+        match rng.below(3) {
+            0 => GfpMatch::All((0..rng.below(4)).map(|_| rand_gfp(rng, depth - 1)).collect()),
+            1 => GfpMatch::Any((0..rng.below(4)).map(|_| rand_gfp(rng, depth - 1)).collect()),
+            _ => GfpMatch::Not(Box::new(rand_gfp(rng, depth - 1))),
+        }
+    }
+}
+
+fn rand_order(rng: &mut Rng) -> Option<(usize, usize)> {
+    match rng.below(6) {
+        0 => None,
+        1 => Some((0, 8)),
+        2 => Some((9, 10)),
+        3 => {
+            // possibly empty range (min > max)
+            Some((rng.below(12) as usize, rng.below(12) as usize))
+        }
+        _ => {
+            let a = rng.below(11) as usize;
+            Some((a, a + rng.below(11 - a as u64) as usize))
+        }
+    }
+}
+
+/// The matcher shapes of the shipped files: a partition of the GFP space over the first n-1 classes
+/// (orders 0..8), the last class takes orders 9..10.
+fn partition(kinds: &[Count], ids: &[u8]) -> Vec<ClassConfig> {
+    let n = kinds.len();
+    let on = |f| GfpMatch::On(f);
+    let off = |f| GfpMatch::Off(f);
+    let hard = || GfpMatch::Any(vec![off(GFP::HIGHMEM), on(GFP::NOFAIL), off(GFP::FS), on(GFP::NORETRY)]);
+    let small: Vec<GfpMatch> = match n {
+        1 => vec![],
+        2 => vec![GfpMatch::default()],
+        3 => vec![off(GFP::MOVABLE), on(GFP::MOVABLE)],
+        _ => vec![
+            off(GFP::MOVABLE),
+            GfpMatch::All(vec![on(GFP::MOVABLE), off(GFP::PAGE_CACHE), GfpMatch::Not(Box::new(hard()))]),
+            GfpMatch::All(vec![on(GFP::MOVABLE), GfpMatch::Any(vec![on(GFP::PAGE_CACHE), hard()])]),
+        ],
+    };
+    let mut v = Vec::new();
+    for i in 0..n {
+        let (order, gfp) = if i + 1 == n {
+            (if n == 1 { None } else { Some((9, 10)) }, GfpMatch::default())
+        } else {
+            (Some((0, 8)), small[i].clone())
+        };
+        v.push(ClassConfig { id: ids[i], count: kinds[i], order, gfp });
+    }
+    v
+}
+
+fn wrap(classes: Vec<ClassConfig>) -> ClassingConfig {
+    let default = classes.last().map(|c| c.id).unwrap_or(0);
+    ClassingConfig { classes, default, perfect: (64, 2047), good: (2048, 4095) }
+}
+
+// ---------------------------------------------------------------- running one configuration
+struct Opts {
+    cores: Vec<usize>,
+    sweep_step: usize,
+    grid: bool,
+    use_alloc: bool,
+}
+
+struct Runner {
+    w: Box<dyn Write>,
+    rng: Rng,
+    gfps: Vec<u32>,
+    evals: u64,
+    use_panics: u64,
+}
+
+impl Runner {
+    fn header(&mut self, label: &str, json: &str, m: &ClassingConfig) -> Option<RealConfig> {
+        writeln!(self.w, "CFG {label} {}", m.classes.len()).unwrap();
+        let one_line: String = json.chars().map(|c| if c == '\n' || c == '\r' { ' ' } else { c }).collect();
+        writeln!(self.w, "J {one_line}").unwrap();
+        for c in &m.classes {
+            let mut s = format!("C {} {}", c.id, kind_name(c.count));
+            match c.order {
+                Some((a, b)) => s.push_str(&format!(" {a} {b}")),
+                None => s.push_str(" - -"),
+            }
+            gfp_tokens(&c.gfp, &mut s);
+            writeln!(self.w, "{s}").unwrap();
+        }
+        match facet_json::from_str::<RealConfig>(json) {
+            Ok(real) => {
+                let same = format!("{real:?}") == format!("{m:?}");
+                writeln!(self.w, "PARSE {}", if same { "ok" } else { "differ" }).unwrap();
+                Some(real)
+            }
+            Err(e) => {
+                let e: String = format!("{e}").chars().map(|c| if c.is_whitespace() { '_' } else { c }).take(100).collect();
+                writeln!(self.w, "PARSE error:{e}").unwrap();
+                None
+            }
+        }
+    }
+
+    /// K line + allocator for `cores`
+    fn classing<'a>(&mut self, real: &RealConfig, cores: usize, use_alloc: bool) -> Option<LLFree<'a>> {
+        let r = catch_unwind(AssertUnwindSafe(|| real.classing(cores)));
+        match r {
+            Err(_) => {
+                writeln!(self.w, "K {cores} P").unwrap();
+                None
+            }
+            Ok(classing) => {
+                let l: Vec<String> = classing.classes().iter().map(|(c, n)| format!("{}:{}", c.0, n)).collect();
+                writeln!(self.w, "K {cores} {}", if l.is_empty() { "-".into() } else { l.join(",") }).unwrap();
+                if !use_alloc || l.is_empty() {
+                    return None;
+                }
+                self.make_alloc(real, cores)
+            }
+        }
+    }
+
+    /// A fresh allocator (64 trees, all free) with the classing of `real` for `cores`.
+    fn make_alloc<'a>(&mut self, real: &RealConfig, cores: usize) -> Option<LLFree<'a>> {
+        let frames = 64 * TREE_FRAMES;
+        catch_unwind(AssertUnwindSafe(|| {
+            let classing = real.classing(cores);
+            let meta = MetaData::alloc(&LLFree::metadata_size(&classing, frames));
+            LLFree::new(frames, Init::FreeAll, &classing, meta).ok()
+        }))
+        .unwrap_or_else(|_| {
+            writeln!(self.w, "# allocator construction panicked: {}", last_panic()).unwrap();
+            None
+        })
+    }
+
+    fn query(&mut self, real: &RealConfig, alloc: &mut Option<LLFree>, q: (usize, usize, usize, usize, u32)) {
+        let (order, core, cores, pid, gfp) = q;
+        self.evals += 1;
+        let r = catch_unwind(AssertUnwindSafe(|| real.request(order, core, cores, pid, gfp)));
+        let Ok(req) = r else {
+            writeln!(self.w, "Q {order} {core} {pid} {gfp:x} P").unwrap();
+            return;
+        };
+        let local = req.local.map(|l| l.to_string()).unwrap_or("N".into());
+        let mut used = String::from("-");
+        let mut drop_alloc = false;
+        if let Some(a) = alloc.as_ref() {
+            let request = Request::new(req.order, req.class, req.local);
+            let r = catch_unwind(AssertUnwindSafe(|| match a.get(None, request) {
+                Ok((frame, _)) => a.put(frame, request).is_ok(),
+                Err(_) => false,
+            }));
+            used = match r {
+                Ok(true) => "ok".into(),
+                Ok(false) => "err".into(),
+                Err(_) => {
+                    self.use_panics += 1;
+                    drop_alloc = true;
+                    format!("panic:{}", last_panic())
+                }
+            };
+        }
+        if drop_alloc {
+            // the state after a panic is undefined: leak the allocator and continue on a fresh one
+            std::mem::forget(alloc.take());
+            *alloc = self.make_alloc(real, cores);
+        }
+        writeln!(self.w, "Q {order} {core} {pid} {gfp:x} {} {local} {used}", req.class.0).unwrap();
+    }
+
+    fn run_config(&mut self, label: &str, json: &str, m: &ClassingConfig, o: &Opts) {
+        let Some(real) = self.header(label, json, m) else { return };
+        let ngfp = self.gfps.len();
+        let mut first = true;
+        for &cores in &o.cores {
+            let mut alloc = self.classing(&real, cores, o.use_alloc && cores > 0);
+            // order x gfp grid (class selection), once per configuration
+            if o.grid && first {
+                for order in 0..=12usize {
+                    for gi in 0..ngfp {
+                        let gfp = self.gfps[gi];
+                        let core = self.rng.below(65) as usize;
+                        let pid = self.rng.below(65) as usize;
+                        self.query(&real, &mut alloc, (order, core, cores, pid, gfp));
+                    }
+                }
+            }
+            first = false;
+            // core sweep and pid sweep (slot index)
+            let mut x = 0;
+            while x <= 64 {
+                let order = self.rng.below(11) as usize;
+                let gfp = self.gfps[self.rng.below(ngfp as u64) as usize];
+                let other = self.rng.below(65) as usize;
+                self.query(&real, &mut alloc, (order, x, cores, other, gfp));
+                let order = self.rng.below(11) as usize;
+                let gfp = self.gfps[self.rng.below(ngfp as u64) as usize];
+                self.query(&real, &mut alloc, (order, other, cores, x, gfp));
+                x += if x == 64 { 1 } else { o.sweep_step.min(64 - x) };
+            }
+            // boundaries: core/pid == cores-1, cores, cores+1, large
+            for x in [cores.saturating_sub(1), cores, cores + 1, 2 * cores + 1, 1 << 20, usize::MAX] {
+                let order = self.rng.below(11) as usize;
+                let gfp = self.gfps[self.rng.below(ngfp as u64) as usize];
+                self.query(&real, &mut alloc, (order, x, cores, x, gfp));
+            }
+        }
+    }
+}
+
 fn main() {
-    let c: llfree_eval::classes::ClassingConfig = facet_json::from_str(r#"{"classes":[{"id":0,"count":"one","order":null}],"default":0,"perfect":[1,2],"good":[3,4]}"#).unwrap();
-    println!("{c:?} {:?}", c.request(0, 0, 1, 0, 0));
+    let args = Args::parse();
+    let seed = args.num("seed", 1);
+    let random = args.num("random", 200);
+    let level = args.num("level", 0); // 0 = quick, 1 = thorough
+    let dups = args.num("dups", 0); // investigation only: duplicate ids with different kinds
+    let results = args.get("results").unwrap_or("/repo/results").to_string();
+    install_hook();
+
+    let mut rng = Rng::new(seed);
+    let mut gfps: Vec<u32> = vec![0, u32::MAX, 0x0100_0000, 0xe000_0000];
+    gfps.extend(FLAGS.iter().map(|f| *f as u32));
+    let g = |l: &[GFP]| l.iter().fold(0u32, |a, f| a | *f as u32);
+    gfps.push(g(&[GFP::MOVABLE, GFP::HIGHMEM, GFP::FS]));
+    gfps.push(g(&[GFP::MOVABLE, GFP::PAGE_CACHE, GFP::HIGHMEM, GFP::FS]));
+    gfps.push(g(&[GFP::MOVABLE, GFP::RECLAIMABLE]));
+    gfps.push(g(&[GFP::MOVABLE, GFP::NORETRY, GFP::HIGHMEM, GFP::FS]));
+    gfps.push(g(&[GFP::MOVABLE, GFP::PAGE_CACHE, GFP::NOFAIL, GFP::HIGHMEM, GFP::FS]));
+    gfps.push(g(&[GFP::HIGHMEM, GFP::FS]));
+    for _ in 0..3 {
+        gfps.push(rng.next() as u32);
+    }
+
+    let mut r = Runner { w: out(args.get("out")), rng, gfps, evals: 0, use_panics: 0 };
+    let all_cores: Vec<usize> = (1..=16).collect();
+
+    // ---- replay mode: re-execute J/K/Q lines on the current implementation
+    if let Some(path) = args.get("replay") {
+        let text = std::fs::read_to_string(path).expect("replay file");
+        let mut cur: Option<(RealConfig, usize)> = None;
+        let mut alloc: Option<LLFree> = None;
+        let mut json = String::new();
+        let mut n = 0;
+        for line in text.lines() {
+            let line = line.trim();
+            if let Some(j) = line.strip_prefix("J ") {
+                json = j.to_string();
+                n += 1;
+                match facet_json::from_str::<ClassingConfig>(&json) {
+                    Ok(m) => {
+                        cur = r.header(&format!("replay{n}"), &json, &m).map(|c| (c, 1));
+                        alloc = None;
+                    }
+                    Err(e) => {
+                        eprintln!("classrun: replay: cannot parse configuration: {e}");
+                        cur = None;
+                    }
+                }
+            } else if let Some(k) = line.strip_prefix("K ") {
+                if let Some((real, cores)) = cur.as_mut() {
+                    *cores = k.split_whitespace().next().unwrap().parse().expect("cores");
+                    let c = *cores;
+                    let real = real.clone();
+                    alloc = r.classing(&real, c, c > 0);
+                }
+            } else if let Some(q) = line.strip_prefix("Q ") {
+                if let Some((real, cores)) = cur.as_ref() {
+                    let t: Vec<&str> = q.split_whitespace().collect();
+                    let p = |s: &str| s.parse::<usize>().expect("number");
+                    let gfp = u32::from_str_radix(t[3], 16).expect("gfp");
+                    let real = real.clone();
+                    r.query(&real, &mut alloc, (p(t[0]), p(t[1]), *cores, p(t[2]), gfp));
+                }
+            }
+        }
+        let _ = json;
+        r.w.flush().unwrap();
+        eprintln!("classrun: replay evaluations={} use_panics={}", r.evals, r.use_panics);
+        return;
+    }
+
+    // ---- 1. shipped configurations: every cores 1..16, full sweeps
+    let mut shipped: Vec<_> = std::fs::read_dir(&results)
+        .map(|d| d.filter_map(|e| e.ok()).map(|e| e.path()).collect::<Vec<_>>())
+        .unwrap_or_default()
+        .into_iter()
+        .filter(|p| {
+            let n = p.file_name().and_then(|n| n.to_str()).unwrap_or("");
+            n.starts_with("classes") && n.ends_with(".json")
+        })
+        .collect();
+    shipped.sort();
+    let full = Opts { cores: all_cores.clone(), sweep_step: 1, grid: true, use_alloc: true };
+    for p in &shipped {
+        let text = std::fs::read_to_string(p).expect("read");
+        let label = format!("file:{}", p.file_name().unwrap().to_str().unwrap());
+        match facet_json::from_str::<ClassingConfig>(&text) {
+            Ok(m) => r.run_config(&label, &text, &m, &full),
+            Err(e) => {
+                let e: String = format!("{e}").chars().map(|c| if c.is_whitespace() { '_' } else { c }).take(100).collect();
+                writeln!(r.w, "CFG {label} 0\nPARSE error:{e}").unwrap();
+            }
+        }
+    }
+
+    // ---- 2. all combinations of kinds for 1..4 classes
+    let mut idx = 0usize;
+    for n in 1..=4usize {
+        for code in 0..5usize.pow(n as u32) {
+            let kinds: Vec<Count> = (0..n).map(|i| KINDS[(code / 5usize.pow(i as u32)) % 5]).collect();
+            idx += 1;
+            // ids: 0..n, or spread over 0..8 (still distinct)
+            let ids: Vec<u8> = if idx % 3 == 0 {
+                let off = r.rng.below(8 - n as u64 + 1) as u8;
+                (0..n as u8).map(|i| i + off).collect()
+            } else {
+                (0..n as u8).collect()
+            };
+            let classes = if idx % 2 == 0 {
+                partition(&kinds, &ids)
+            } else {
+                (0..n)
+                    .map(|i| ClassConfig {
+                        id: ids[i],
+                        count: kinds[i],
+                        order: rand_order(&mut r.rng),
+                        gfp: rand_gfp(&mut r.rng, 3),
+                    })
+                    .collect()
+            };
+            let m = wrap(classes);
+            let json = facet_json::to_string(&m).expect("serialise");
+            let label = format!("kinds{n}:{}", kinds.iter().map(|k| kind_name(*k)).collect::<Vec<_>>().join("+"));
+            // quick: every configuration sees every core count 1..16; the 625 four-class ones with a
+            // coarser core/pid sweep (step 3 + boundaries)
+            let o = Opts {
+                cores: all_cores.clone(),
+                sweep_step: if level == 0 && n == 4 { 3 } else { 1 },
+                grid: true,
+                use_alloc: true,
+            };
+            r.run_config(&label, &json, &m, &o);
+        }
+    }
+
+    // ---- 3. random configurations: 1..8 classes, ids 0..7 possibly repeated with the SAME kind
+    for i in 0..random {
+        let n = 1 + r.rng.below(8) as usize;
+        let mut kind_of: [Option<Count>; 8] = [None; 8];
+        let mut classes = Vec::new();
+        for _ in 0..n {
+            let id = r.rng.below(8) as usize;
+            let k = *kind_of[id].get_or_insert(*r.rng.pick(&KINDS));
+            classes.push(ClassConfig { id: id as u8, count: k, order: rand_order(&mut r.rng), gfp: rand_gfp(&mut r.rng, 4) });
+        }
+        let m = wrap(classes);
+        let json = facet_json::to_string(&m).expect("serialise");
+        let o = Opts { cores: all_cores.clone(), sweep_step: if level == 0 { 5 } else { 1 }, grid: true, use_alloc: true };
+        r.run_config(&format!("random{i}"), &json, &m, &o);
+    }
+
+    // ---- 4. outside the hypotheses (correspondence of the panics only): cores = 0, empty class list
+    for code in 0..5 {
+        let m = wrap(vec![ClassConfig { id: 0, count: KINDS[code], order: None, gfp: GfpMatch::default() }]);
+        let json = facet_json::to_string(&m).expect("serialise");
+        let o = Opts { cores: vec![0], sweep_step: 16, grid: false, use_alloc: false };
+        r.run_config(&format!("edge-cores0:{}", kind_name(KINDS[code])), &json, &m, &o);
+    }
+    {
+        let m = wrap(vec![]);
+        let json = facet_json::to_string(&m).expect("serialise");
+        let o = Opts { cores: vec![1, 4], sweep_step: 16, grid: false, use_alloc: false };
+        r.run_config("edge-empty", &json, &m, &o);
+    }
+
+    // ---- 5. investigation only (--dups N): duplicate ids with DIFFERENT kinds
+    for i in 0..dups {
+        let n = 2 + r.rng.below(3) as usize;
+        let mut classes = Vec::new();
+        for j in 0..n {
+            let id = if j == 0 { 0 } else { r.rng.below(2) as u8 };
+            classes.push(ClassConfig { id, count: *r.rng.pick(&KINDS), order: rand_order(&mut r.rng), gfp: rand_gfp(&mut r.rng, 2) });
+        }
+        let m = wrap(classes);
+        let json = facet_json::to_string(&m).expect("serialise");
+        let o = Opts { cores: vec![1, 2, 4, 16], sweep_step: 7, grid: true, use_alloc: true };
+        r.run_config(&format!("dup{i}"), &json, &m, &o);
+    }
+
+    r.w.flush().unwrap();
+    eprintln!("classrun: evaluations={} use_panics={}", r.evals, r.use_panics);
 }
